@@ -75,6 +75,7 @@ func verifLemmaTraversalComplete(E iface.IPFSLogOrderedEntries, H iface.IPFSLogO
 //@ @lin ensures [traverse-visits-its-roots] rootEntries != nil && amount < 0 && (forall k string :: has(omv(rootEntries), k) || has(ent(l), k) ==> k != endHash) ==> visitsRoots(rootEntries, result0)
 //@ @lin ensures [traverse-follows-every-link-into-the-log] rootEntries != nil && amount < 0 && (forall k string :: has(omv(rootEntries), k) || has(ent(l), k) ==> k != endHash) ==> followsLinks(result0, l.Entries)
 //@ @lin ensures [traverse-returns-root-or-log-objects] rootEntries != nil ==> forall k string :: has(omv(result0), k) ==> (has(omv(rootEntries), k) && omv(result0)[k] == omv(rootEntries)[k]) || (has(ent(l), k) && omv(result0)[k] == ent(l)[k])
+//@ @lin ensures [visited-objects-agree-with-the-log-on-links] rootEntries != nil ==> linksAgree(result0, l.Entries)
 //@ @lin uselemma verifLemmaTraversalComplete(l.Entries, rootEntries, result0, _)
 //@ @lin ensures [traverse-is-complete] rootEntries != nil && amount < 0 && (forall k string :: has(omv(rootEntries), k) || has(ent(l), k) ==> k != endHash) && linksAgree(rootEntries, l.Entries) && connectedUp(l.Entries, rootEntries) ==> forall x string :: has(ent(l), x) ==> has(omv(result0), x)
 //@   requires l != nil && validEntries(l.Entries) && l.SortFn != nil
